@@ -209,3 +209,14 @@ CHECKS["C07"] = {
     "units": [{"name": "c07", "pkg": "c07", "run": "^Test", "race": True, "race_filter": "pkg/metadata", "shards": 6}],
     "expect_checks": ["c07.streams"],
 }
+
+CHECKS["C14"] = {
+    "level": "exploration",
+    "technique": "model-based property testing (rapid) against the real filesystem and inotify in real time: generated histories of update steps on the watched certificate/key paths (in-place truncate / half / full / garbage writes, atomic rename-over with good and bad content, Kubernetes-style symlinked-directory swaps with good and mismatching pairs, a removed-and-recreated file as its own class), each ending with a settle suffix that installs a fresh valid pair in one of the supported styles, while a background client performs TLS handshakes throughout",
+    "rule": "case = layout (flat / k8s) + 0..10 steps + settle style. Non-trivial = the history contains a broken intermediate state and uses at least two update styles; distinct by hash of the script.",
+    "level_text": "Generated histories with two oracles: safety (every handshake during and after the history succeeds and presents a pair whose certificate and key have both been completely on disk) and convergence (within 3 s of real time after the settle suffix, re-checked once after 2 more seconds, new handshakes present the settled pair).",
+    "level_note": "Trusted: this kernel's inotify semantics on this filesystem (tmpfs/overlay under $TMPDIR), fsnotify v1.7.0, wall-clock bound of 3 s + 2 s (events arrive within milliseconds here). The safety set is the superset 'certificate k and key k have each been fully written at some time', which never raises a false alarm.",
+    "assumptions": ["real time: the only check with a timing tolerance; a history whose settled files are not on disk is discarded, not judged"],
+    "units": [{"name": "c14", "pkg": "c14", "run": "^Test", "shards": 8}],
+    "expect_checks": ["c14.reload"],
+}
